@@ -209,9 +209,64 @@ def model_output(prop, corr_module, case, fn="model"):
     return out[-4000:]
 
 
+def gen_check(ctx, fname, text, n_obligations, what, timeout=900):
+    """Translator obligation: write gen/<fname> (generated from /repo's current tree), compile it with coqc.
+    A failure is a 'translator-obligation' violation (not concrete by itself: the caller's search decides).
+    Returns (ok, coqc output)."""
+    os.makedirs(GEN, exist_ok=True)
+    open(os.path.join(GEN, fname), "w").write(text)
+    rc, out = run_coqc(os.path.join("gen", fname), timeout)
+    ctx["extra_obligations"] += n_obligations
+    if rc == 0:
+        ctx["extra_discharged"] += n_obligations
+    else:
+        ctx["R"].violation("translator-obligation", dict(what=what, file="coq/gen/" + fname, log=out[-2500:]), False)
+    return rc == 0, out
+
+
+def gen_check_many(ctx, items, timeout=900):
+    """items: list of (fname, text, n_obligations, what); compiled in parallel. Returns {fname: (ok, out)}."""
+    os.makedirs(GEN, exist_ok=True)
+    for fname, text, _, _ in items:
+        open(os.path.join(GEN, fname), "w").write(text)
+    res = {}
+    with concurrent.futures.ThreadPoolExecutor(max_workers=16) as ex:
+        futs = {ex.submit(run_coqc, os.path.join("gen", it[0]), timeout): it for it in items}
+        for fut in concurrent.futures.as_completed(futs):
+            fname, _, n, what = futs[fut]
+            rc, out = fut.result()
+            ctx["extra_obligations"] += n
+            if rc == 0:
+                ctx["extra_discharged"] += n
+            else:
+                ctx["R"].violation("translator-obligation", dict(what=what, file="coq/gen/" + fname, log=out[-2500:]), False)
+            res[fname] = (rc == 0, out)
+    return res
+
+
 # ------------------------------------------------------------------ harness
+def harness_prepare():
+    """Instantiate harness/Cargo.toml and .cargo/config.toml for the repository at REPO."""
+    tpl = open(os.path.join(HARNESS, "Cargo.toml.in")).read().replace("@REPO@", REPO)
+    dst = os.path.join(HARNESS, "Cargo.toml")
+    if not os.path.exists(dst) or open(dst).read() != tpl:
+        open(dst, "w").write(tpl)
+    os.makedirs(os.path.join(HARNESS, ".cargo"), exist_ok=True)
+    cfgp = os.path.join(HARNESS, ".cargo", "config.toml")
+    cfg = "[net]\noffline = true\n[build]\ntarget-dir = \"%s\"\n" % TARGET
+    if not os.path.exists(cfgp) or open(cfgp).read() != cfg:
+        open(cfgp, "w").write(cfg)
+    tc = os.path.join(REPO, "rust-toolchain.toml")
+    if os.path.exists(tc):
+        data = open(tc).read()
+        dtc = os.path.join(HARNESS, "rust-toolchain.toml")
+        if not os.path.exists(dtc) or open(dtc).read() != data:
+            open(dtc, "w").write(data)
+
+
 def harness_build(profile="dev", timeout=2400):
     with Lock("cargo"):
+        harness_prepare()
         lock_src = os.path.join(REPO, "Cargo.lock")
         if os.path.exists(lock_src):
             data = open(lock_src).read()
